@@ -78,6 +78,17 @@ def rand_assignment(rng, params, n, required=()):
             vs = [rng.uniform(lo, hi) for _ in range(n)]
             if rng.random() < 0.12:
                 vs = [vs[0]] * n
+            elif lo < 0 and rng.random() < 0.3:
+                # integer-valued scan around zero (np.arange(-2, 3) and the like): small negative integers are where
+                # value-keyed shortcuts (hash(-1) == hash(-2), truthiness of 0) go wrong
+                grid = [-2, -1, 0, 1, 2, -3, 3]
+                rng.shuffle(grid)
+                vs = [float(v) for v in grid[:n]] if rng.random() < 0.5 else sorted(float(v) for v in grid[:n])
+                if rng.random() < 0.5:
+                    passed[nm] = np.array(vs).astype(int)
+                    cols[nm] = vs
+                    swept_any = True
+                    continue
             passed[nm] = np.array(vs) if rng.random() < 0.7 else list(vs)
             cols[nm] = vs
             swept_any = True
@@ -239,7 +250,11 @@ def rand_solver_case(rng, nmax):
             continue
         if mode == "lenN":
             vals = [Fraction(rng.randint(-8, 8), 8) for _ in range(n)]
-            if rng.random() < 0.5:
+            if rng.random() < 0.25:
+                grid = [-2, -1, 0, 1, 2, -3]
+                rng.shuffle(grid)
+                vals = [Fraction(v) for v in grid[:n]]          # integer scan around zero (both -1 and -2 present for n >= 5, often otherwise)
+            elif rng.random() < 0.5:
                 vals[0] = Fraction(0)
             if rng.random() < 0.15:
                 vals = [vals[0]] * n            # an array that happens to be constant is still a sweep of n points
